@@ -1090,6 +1090,29 @@ theorem C17_d74_witness :
       | _ => false) = true := by
   decide +kernel
 
+/-- **D74, second form**: `setupRequired(b)` inside `if (flavor == Linux) {` … `} else {` `envSet(A_FL, 2)` `}`.  The
+expander nests its `if (type == exact) {` block inside the table's block; the reader (no nested blocks) drops the outer
+condition and reads the else branch as unconditional: on Linux, in exact mode, the expanded text yields `envSet(A_FL, 2)`,
+the original text does not. -/
+def D4b : AnswerData where
+  sv := [(str! "a", str! "1"), (str! "b", str! "1"), (str! "c", str! "1")]
+  spv := [(str! "a", str! "1"), (str! "b", str! "1"), (str! "c", str! "1")]
+  deps := [((str! "c", str! "1"), some []), ((str! "b", str! "1"), some [])]
+def T4b : List Str :=
+  [str! "setupRequired(c)\n", str! "if (flavor == Linux) {\n", str! "setupRequired(b)\n", str! "} else {\n",
+   str! "envSet(A_FL, 2)\n", str! "}\n"]
+def hasEnvSet (r : Cond.Res (List TableParse.Action)) : Bool :=
+  match r with
+  | .ok acts => acts.any (fun a => a.cmd == str! "envSet")
+  | _ => false
+
+theorem C17_d74_nested_witness :
+    hasEnvSet (TableParse.tableActions TableParse.repaired none exactEnv1 T4b.flatten) = false ∧
+    (match expandItems D4b.toAnswers o1 T4b with
+      | .ok items => hasEnvSet (TableParse.tableActions TableParse.repaired none exactEnv1 (ExpandTable.expandedText items true))
+      | .error _ => false) = true := by
+  decide +kernel
+
 /-- **D72** (open finding): the hypothesis `Covered` is not a formality.  Answers as the real code gives them for the table
 `setupRequired(d)`, `setupRequired(c)`, `setupRequired(b)` when `d` takes `f` away again, `c` takes `e` away and `b` sets
 `e` — and with it `f` — up again: `f 1` is set up, but no listing mentions it (`Table.dependencies` removed it by name
